@@ -79,3 +79,24 @@ Theorem C04_registered_normalisers_total : forall fam raw g site,
   fam <> F_XML -> normalise (kind_of fam raw g) raw <> Panic site.
 Proof. exact registered_normalisers_total. Qed.
 Print Assumptions C04_registered_normalisers_total.
+
+(* Scanning one comment for tags always returns a list (no error, no panic), whatever bytes the comment holds. *)
+Theorem C04_tag_scan_of_a_comment_total : forall ci c, exists r, ptags_of_comment ci c = Ok r.
+Proof. exact ptags_of_comment_no_panic. Qed.
+Print Assumptions C04_tag_scan_of_a_comment_total.
+
+(* Building a comment from any in-bounds span of a non-XML language never panics. *)
+Theorem C04_comment_build_no_panic : forall file sp,
+  cs_kind sp <> K_XML ->
+  (exists raw, bslice file (cs_lo sp) (cs_hi sp) = Some raw) ->
+  forall site, mk_comment file sp <> Panic site.
+Proof. exact mk_comment_no_panic. Qed.
+Print Assumptions C04_comment_build_no_panic.
+
+(* Nor for an XML-family comment span that has the delimiters the grammar guarantees. *)
+Theorem C04_comment_build_no_panic_xml : forall file sp m,
+  cs_kind sp = K_XML ->
+  bslice file (cs_lo sp) (cs_hi sp) = Some (T "<!--" ++ m ++ T "-->") ->
+  forall site, mk_comment file sp <> Panic site.
+Proof. exact mk_comment_no_panic_xml. Qed.
+Print Assumptions C04_comment_build_no_panic_xml.
